@@ -50,6 +50,23 @@ def gen_one(r, i, tier):
         spec = g.spec(kind=r.choice(gen.NODES + gen.NODES + gen.LEAVES[1:]))
         if quantity_bearing(spec):
             break
+    # stratum for the kernels' special cases (np.histogram / np.unique fast paths of Count-valued
+    # Bin, CentrallyBin, SparselyBin, Categorize, which depend on the weight being 1, a scalar or an
+    # array): such a node at the root or directly below a collection, every weight mode in turn
+    fast = (i % 5 == 4)
+    if fast:
+        kind = ["Categorize", "Bin", "SparselyBin", "CentrallyBin"][(i // 5) % 4]
+        spec = g.spec(depth=1, kind=kind)
+        spec["value"] = {"k": "Count"}
+        wrap = (i // 20) % 5
+        if wrap == 1:
+            spec = {"k": "Label", "pairs": {"a": spec}}
+        elif wrap == 2:
+            spec = {"k": "Branch", "values": [{"k": "Count"}, spec]}
+        elif wrap == 3:
+            spec = {"k": "UntypedLabel", "pairs": {"k1": {"k": "Count"}, "b": spec}}
+        elif wrap == 4:
+            spec = {"k": "Index", "values": [spec]}
     # quantities read named columns: d["x"] works on a dict of arrays, a record array and a dict row
     for s_ in gen.walk(spec):
         if "q" in s_:
@@ -62,7 +79,7 @@ def gen_one(r, i, tier):
     form = r.choice(["dict", "dict", "rec"])
     ops = [("new", spec), ("new", spec)]
     meta = {"batches": [], "input": form}
-    for b in range(r.randint(1, 3)):
+    for b in range(3 if fast else r.randint(1, 3)):
         n = r.choice([0, 1, 2, r.randint(3, 10), r.randint(3, 10)])
         rows = [d for d, _ in (base.small_stream(r, spec, n, [1.0], cats=CATS) if dyadic
                                else gen.stream(r, spec, n, [1.0], cats=CATS))]
@@ -74,7 +91,11 @@ def gen_one(r, i, tier):
             rows = [[(v if isinstance(v, str) or v != v or abs(v) == float("inf") or abs(v) < 1e4 else r.randint(-40, 40) / 10.0)
                      for v in d] for d in rows]
         c = r.random()
-        if c < 0.35:
+        if fast:
+            c = [0.1, 0.4, 0.4, 0.9, 0.9][(i // 100 + b) % 5]
+        if fast and c > 0.55 and (i // 100 + b) % 5 == 4:
+            w = [1.0 for _ in rows]          # an array of ones (takes the unit-weight fast path)
+        elif c < 0.35:
             w = 1.0
         elif c < 0.55:
             w = r.choice([2.0, 0.5, 0.25, 3.0, 0.0] if dyadic else [0.1, 2.0, 1.0 / 3.0, 0.0])
